@@ -212,7 +212,7 @@ def rule_parse_resets(rep: Report, rid="C15.reset") -> None:
            expected="matcher.reset() before read_token, for the matcher stored in the context", found={"context matcher": fmt(M, I) if M else None, "reset": [fmt(x, I) for x in reset_objs]})
     e, q = P.ctx_attr("errors"), P.ctx_attr("token_queue")
     eo, qo = (I.obj(e) if e else None), (I.obj(q) if q else None)
-    ok = isinstance(eo, HList) and not eo.segs and eo.origin[0] == P.fi.qualname and isinstance(qo, HList) and not qo.segs and qo.origin[0] == P.fi.qualname and e != q
+    ok = isinstance(eo, HList) and not eo.segs and eo.origin[2] != 0 and isinstance(qo, HList) and not qo.segs and qo.origin[2] != 0 and e != q
     ctx_o = I.obj(P.ctx) if P.ctx else None
     rep.ob(rid, "each parse gets a fresh context: empty error list and empty look-ahead queue", ok and ctx_o is not None, **kw,
            expected="ParserContext(scanner, matcher, deque(), [])", found={"errors": fmt(e, I) if e else None, "token_queue": fmt(q, I) if q else None})
@@ -222,7 +222,7 @@ def rule_parse_resets(rep: Report, rid="C15.reset") -> None:
         c = M[1]
         new, given = (M[2], M[3]) if c == ("cmp", "Is", P.matcher_param, NONE) else ((M[3], M[2]) if c == mk_not(("cmp", "Is", P.matcher_param, NONE)) else (None, None))
         o = I.obj(new) if new else None
-        ok = isinstance(o, HInst) and o.cls.name.endswith("TokenMatcher") and o.origin[0] == P.fi.qualname and given == P.matcher_param
+        ok = isinstance(o, HInst) and o.cls.name.endswith("TokenMatcher") and o.origin[2] != 0 and given == P.matcher_param
     rep.ob(rid, "without an explicit matcher each parse creates its own TokenMatcher (no matcher shared between parses or parsers)", ok, **kw,
            expected="TokenMatcher() if token_matcher is None else token_matcher", found=fmt(M, I) if M else None)
 
